@@ -10,6 +10,9 @@
 (*   Recv  plan, store0, store1       the receiver was fed                  *)
 (*   Trans chg, disk0, store0, err, results, problems, missing, disk1,      *)
 (*         store1                                                           *)
+(*   Restart how, plant   the endpoint object was replaced by a new one for  *)
+(*         the same session (the on-disk staging root survives, or was      *)
+(*         emptied / replaced by a file)                                    *)
 (*   Subset filtered, original, out   one call of the controller's check of *)
 (*         Stage's answer (safety.go filteredPathsAreSubset)                *)
 (* disk* / store* come from the independent walker. The module drives the   *)
@@ -27,6 +30,8 @@ VARIABLES l, fails, st, stats, done
 tvars == <<l, fails, st, stats, done>>
 
 StoreSet(q) == {q[i] : i \in DOMAIN q}
+\* the walker found something that is not a directory at the staging root path
+Obstructed(r) == Has(r, "sroot") /\ r.sroot = "file"
 
 \* the I/O fault the driver arranged around a Stage or Recv call:
 \*   [kind |-> "none"] | [kind |-> "fsize", limit |-> bytes]  RLIMIT_FSIZE: genuine short write + EFBIG
@@ -38,7 +43,7 @@ Strikes(f, sz) == CASE f.kind = "fsize" -> sz > f.limit [] f.kind = "rename" -> 
 CapOf(m, f) == IF f.kind = "fsize" /\ f.limit < m.maxfile THEN f.limit ELSE m.maxfile
 StruckReq(r) == {j \in DOMAIN r.req : Strikes(FaultOf(r), r.req[j].sz)}
 StruckPlan(r) == {j \in DOMAIN r.plan : r.plan[j].kind \in {"exact", "split", "corrupt"} /\ Strikes(FaultOf(r), r.plan[j].sz)}
-Stats0 == [struck |-> 0, drift |-> 0, stage_ok |-> 0, omitted |-> 0, requested |-> 0, trans_ok |-> 0, bad_transfer |-> 0,
+Stats0 == [restarts |-> 0, resumed |-> 0, struck |-> 0, drift |-> 0, stage_ok |-> 0, omitted |-> 0, requested |-> 0, trans_ok |-> 0, bad_transfer |-> 0,
            over_limit |-> 0, refused |-> 0, readonly |-> 0, landed |-> 0]
 
 ScanChecks(i, m, r) ==
@@ -46,7 +51,7 @@ ScanChecks(i, m, r) ==
 
 StageChecks(i, m, r) ==
   LET s0 == StoreSet(r.store0)  s1 == StoreSet(r.store1) IN
-     Chk(Want, i, "C41_StageRefusal", C41_StageRefusal(m, r.req, r.err))
+     Chk(Want, i, "C41_StageRefusal", C41_StageRefusal(m, r.req, Obstructed(r), r.err))
   \o Chk(Want, i, "C41_ReadOnlyRefuses", C41_ReadOnlyRefuses(m, r.err, r.disk0, r.disk1, s0, s1))
   \o Chk(Want, i, "C41_StageSubseq", r.err = "" => C41_StageSubseq(r.req, r.ret))
   \o Chk(Want, i, "C41_OmittedAvailable", r.err = "" => C41_OmittedAvailable(r.disk0, s0, r.req, r.ret, s1))
@@ -82,7 +87,7 @@ TransChecks(i, m, r) ==
          (r.err = "" /\ ~OverTrans(m, r.chg)) => C10_MissingReported(~m.dirty, m.init, r.disk0, s0, r.chg, r.missing))
   \o Chk(Want, i, "C10_StoreContentAddressed", C10_StoreContentAddressed(s0))
 
-Known == {"New", "Ext", "Scan", "Stage", "Recv", "Trans", "Subset"}
+Known == {"New", "Ext", "Scan", "Stage", "Recv", "Trans", "Subset", "Restart"}
 Checks(i, m, r) ==
   IF r.ev \notin Known THEN <<Fail(i, "TraceAccepted")>>
   ELSE IF Has(r, "hang") /\ r.hang THEN <<Fail(i, "TraceAccepted")>>
@@ -98,7 +103,8 @@ Apply(m, r) ==
   CASE r.ev = "New" -> NewProto(r.ro, r.max, r.maxfile)
     [] r.ev = "Ext" -> ExtUpd(m)
     [] r.ev = "Scan" -> ScanUpd(m, r.disk0)
-    [] r.ev = "Stage" -> StageUpd(m, Len(r.req))
+    [] r.ev = "Stage" -> StageUpd(m, Len(r.req), Obstructed(r))
+    [] r.ev = "Restart" -> RestartUpd(m)
     [] r.ev = "Trans" -> TransUpd(m, r.chg)
     [] OTHER -> m
 
@@ -115,7 +121,10 @@ Bump(sx, m, r) ==
                        !.refused = @ + (IF ok THEN 0 ELSE 1),
                        !.readonly = @ + (IF m.ro THEN 1 ELSE 0),
                        !.struck = @ + Cardinality(StruckReq(r)),
+                       \* requests answered from a store this endpoint object did not fill itself
+                       !.resumed = @ + (IF ok /\ m.fresh THEN Cardinality({j \in DOMAIN r.req : HasSlot(StoreSet(r.store0), r.req[j].path, r.req[j].d)}) ELSE 0),
                        !.drift = @ + (IF "Conforms" \in Want /\ ~conf THEN 1 ELSE 0)]
+    [] r.ev = "Restart" -> [sx EXCEPT !.restarts = @ + 1]
     [] r.ev = "Recv" -> [sx EXCEPT !.struck = @ + Cardinality(StruckPlan(r))]
     [] r.ev = "Trans" ->
          LET ok == r.err = ""
@@ -139,7 +148,7 @@ Step == /\ l <= NRec
         /\ l' = l + 1 /\ UNCHANGED done
 Finish == /\ l = NRec + 1 /\ ~done
           /\ WriteResult(l - 1, fails,
-                [stat_io_fault_struck |-> stats.struck, stat_drift |-> stats.drift, stat_stage_ok |-> stats.stage_ok, stat_omitted |-> stats.omitted,
+                [stat_restarts |-> stats.restarts, stat_resumed_from_leftover_store |-> stats.resumed, stat_io_fault_struck |-> stats.struck, stat_drift |-> stats.drift, stat_stage_ok |-> stats.stage_ok, stat_omitted |-> stats.omitted,
                  stat_requested |-> stats.requested, stat_trans_ok |-> stats.trans_ok,
                  stat_bad_transfer |-> stats.bad_transfer, stat_over_limit |-> stats.over_limit,
                  stat_refused |-> stats.refused, stat_readonly_calls |-> stats.readonly, stat_landed |-> stats.landed])
